@@ -217,9 +217,11 @@ func findInlineNode(file *ast.File, comment *ast.Comment, fset *token.FileSet) (
 		}
 
 		nodeEndLine := fset.Position(n.End()).Line
+		nodeStartLine := fset.Position(n.Pos()).Line
 
-		// Check if this node ends on the same line as the comment
-		if nodeEndLine == commentLine {
+		// Check if this node ends on the same line as the comment, or starts on it
+		// before the comment (e.g. "default: // @ignore CODE", "select { // @ignore CODE")
+		if nodeEndLine == commentLine || nodeStartLine == commentLine {
 			hasCodeOnLine = true
 			return false // Found code, can stop
 		}
